@@ -70,6 +70,7 @@ pub struct Local {
     fastpath_must_fall_back: u64,
     fastpath_succeeds: u64,
     below_k: u64,
+    batch_attempts: u64,
 }
 
 pub struct Model<'a> {
@@ -170,6 +171,7 @@ impl Lattice for Model<'_> {
         st.count("answers_some", l.some);
         st.count("legit_failures_rank_deficient", l.none_rank_deficient);
         st.count("fastpath_entered", l.fastpath_entered);
+        st.count("whole_set_in_one_call_attempts", l.batch_attempts);
         st.count("fastpath_gf2_regular", l.fastpath_succeeds);
         st.count("fastpath_singular_but_full_system_regular", l.fastpath_must_fall_back);
     }
@@ -194,6 +196,17 @@ pub fn replay(case: &Value) -> Result<(), String> {
             nsrc += 1;
         }
         let expect = nsrc == k as usize || full.full();
+        if i + 1 >= k as usize + 3 && nsrc < k as usize {
+            let pk: Vec<_> = (0..=i).map(|j| u.packets[j].clone()).collect();
+            let mut fresh = new_block_decoder(k, 1, Some(th));
+            match guarded(|| fresh.decode(pk)) {
+                Err(p) => return Err(format!("step {}: decode of the whole set in one call panicked: {}", i, p)),
+                Ok(None) if expect => return Err(format!("step {}: None for the whole set in one call although decodable (rank {} of {})", i, full.rank, u.p.L)),
+                Ok(Some(_)) if !expect => return Err(format!("step {}: Some for the whole set in one call although rank {} < {}", i, full.rank, u.p.L)),
+                Ok(Some(d)) if d != u.data => return Err(format!("step {}: wrong bytes for the whole set in one call", i)),
+                _ => {}
+            }
+        }
         match r {
             Err(p) => return Err(format!("step {} (ESI {}): decode panicked: {}", i, e, p)),
             Ok(None) if expect => return Err(format!("step {} (ESI {}): None although decodable (rank {} of {}, {} source)", i, e, full.rank, u.p.L, nsrc)),
@@ -337,7 +350,7 @@ pub fn run(ctx: &Ctx) -> i32 {
     run_child_and_merge(ctx, &st, "RQ_BIN_CHECKED", "checked", &[]);
     finish(ctx, &st, Finish {
         level: "model_checking",
-        rule: "state graph of a real SourceBlockDecoder: nodes = decoder states reached by delivering a subset of a fixed packet universe (K source + H+4 near repair + 4 far repair ESIs) one packet per call in ascending (and, in the reverse jobs, descending) ESI order (clone per branch), all subsets with at most e erased source symbols (see notes for K, universe, e, back-end per job); at every node decode(..).is_some() must equal [all source present or rank_GF(256)(constraint matrix of the delivered ISIs incl. padding rows) = L] computed by an independent incremental echelon basis, and returned bytes must be the data. distinct_nontrivial = nodes where the solver actually ran (>= K symbols, not all source). Mid ladder: fixed erasure patterns x every subset of 6..13 repair symbols.".into(),
+        rule: "state graph of a real SourceBlockDecoder: nodes = decoder states reached by delivering a subset of a fixed packet universe (K source + H+4 near repair + 4 far repair ESIs) one packet per call in ascending (and, in the reverse jobs, descending) ESI order (clone per branch), all subsets with at most e erased source symbols (see notes for K, universe, e, back-end per job); at every node decode(..).is_some() must equal [all source present or rank_GF(256)(constraint matrix of the delivered ISIs incl. padding rows) = L] computed by an independent incremental echelon basis, and returned bytes must be the data; at every node with at least K+3 symbols the same set is also handed to a fresh decoder in ONE call (a single attempt that sees all the overhead at once) and judged by the same oracle. distinct_nontrivial = nodes where the solver actually ran (>= K symbols, not all source). Mid ladder: fixed erasure patterns x every subset of 6..13 repair symbols.".into(),
         exhaustive: false,
         assumptions: vec!["reference tables transcribed from the pinned commit".into(), "arrival order is ascending ESI, or (reverse jobs) descending so that source symbols arrive after repair symbols and after failed solves; full order independence is C08's".into()],
         extra: Map::new(),
